@@ -8,7 +8,8 @@ value), 'regd' register with defaults= entry, 'mem' memory word write (not writt
 inactive).  Every assignment gets its own data Input v<k> so the SMT check distinguishes them."""
 import itertools
 
-PREDS = ['p', 'q', 'r']
+PREDS = ['p', 'q', 'r']                 # predicates of the enumerated trees
+ALL_PREDS = PREDS + ['s', 't']          # handmade trees may use two more (distinct wires at every level)
 W = 3
 
 
@@ -56,7 +57,7 @@ def elaborate(tree):
     Raises PyrtlError when PyRTL rejects the program."""
     import pyrtl
     pyrtl.reset_working_block()
-    P = {n: pyrtl.Input(1, n) for n in PREDS}
+    P = {n: pyrtl.Input(1, n) for n in ALL_PREDS}
     used = sorted(set(tg for _, tg in assignments(tree)))
     w = pyrtl.WireVector(W, 'w')
     wd = pyrtl.WireVector(W, 'wd')
@@ -213,8 +214,8 @@ def nonexclusive_accepted(tree):
         tags, used = elaborate(tree)
     except pyrtl.PyrtlError:
         return dict(failed=False, observed='rejected', expected='rejected')
-    for bits in itertools.product([0, 1], repeat=3):
-        val = dict(zip(PREDS, bits))
+    for bits in itertools.product([0, 1], repeat=len(ALL_PREDS)):
+        val = dict(zip(ALL_PREDS, bits))
         val.update({v: 0 for v in tags.values()})
         acts = interp(IntOps, tree, val, tags)
         for tg, lst in acts.items():
@@ -226,3 +227,30 @@ def nonexclusive_accepted(tree):
 
 def _totuple(t):
     return [[n[0], list(n[1]), _totuple(n[2])] for n in t]
+
+
+def handmade_trees():
+    """Shapes beyond the enumeration budget: several nested chains at the same depth under
+    successive parents, with and without `otherwise`, up to depth 3 (state kept per nesting level
+    must not leak from one nested chain into the next)."""
+    def leaf(pred, *targets):
+        return [pred, list(targets), []]
+    out = []
+    for t1, t2 in (('w', 'reg'), ('w', 'w'), ('reg', 'w'), ('mem', 'mem'), ('wd', 'regd')):
+        # p{r / otherwise}  q{s / t}          (all five predicates distinct)
+        out.append([['p', [], [leaf('r', t1), leaf('O', t1)]], ['q', [], [leaf('s', t1), leaf('t', t2)]]])
+        out.append([['p', [], [leaf('r', t1), leaf('O', t2)]], ['q', [], [leaf('s', t2), leaf('t', t2)]]])
+        # p{r / otherwise}  otherwise{s / t / otherwise}
+        out.append([['p', [], [leaf('r', t1), leaf('O', t2)]],
+                    ['O', [], [leaf('s', t1), leaf('t', t2), leaf('O', t1)]]])
+        # three nested chains at the same depth
+        out.append([['p', [], [leaf('s', t1), leaf('t', t2)]], ['q', [], [leaf('t', t1), leaf('s', t2)]],
+                    ['r', [], [leaf('s', t1), leaf('t', t2), leaf('O', t2)]]])
+        # depth 3
+        out.append([['p', [], [['q', [], [leaf('r', t1), leaf('O', t2)]],
+                               ['s', [], [leaf('t', t1), leaf('r', t2)]]]],
+                    ['O', [t2], [leaf('q', t1), leaf('r', t1)]]])
+        # an otherwise inside the first member, then later top-level members
+        out.append([['p', [t1], [leaf('q', t2), leaf('O', t2)]], ['r', [t1], []],
+                    ['O', [], [leaf('s', t1), leaf('t', t2)]]])
+    return out
